@@ -84,8 +84,59 @@ fn val_json(v: &Val) -> Result<Value, String> {
 	})
 }
 
+/// jsonnet text of an argument: JSON is jsonnet, `{"$err":1}` is a failing expression,
+/// `{"$b":[op, args…]}` is an array produced by other builtins (the Lean driver evaluates the same
+/// tree with the reference definitions)
 fn j(v: &Value) -> String {
-	v.to_string()
+	match v {
+		Value::Object(m) if m.contains_key("$err") => "(error 'x')".to_string(),
+		Value::Object(m) if m.contains_key("$b") => {
+			let b = m["$b"].as_array().expect("$b");
+			let op = b[0].as_str().expect("builder op");
+			let a = |i: usize| j(&b[i]);
+			match op {
+				"range" => format!("std.range({}, {})", a(1), a(2)),
+				"slice" => format!("std.slice({}, {}, {}, {})", a(1), a(2), a(3), a(4)),
+				"reverse" => format!("std.reverse({})", a(1)),
+				"repeat" => format!("std.repeat({}, {})", a(1), a(2)),
+				"sort" => format!("std.sort({})", a(1)),
+				"map" | "mapWithIndex" | "filter" => {
+					format!("std.{op}({}, {})", fn_text(b[1].as_str().expect("fn")), a(2))
+				}
+				"makeArray" => format!("std.makeArray({}, {})", a(1), fn_text(b[2].as_str().expect("fn"))),
+				"concat" => format!("({} + {})", a(1), a(2)),
+				"chars" => format!("std.stringChars({})", a(1)),
+				"bytes" => format!("std.encodeUTF8({})", a(1)),
+				"list" => format!("[{}]", b[1..].iter().map(j).collect::<Vec<_>>().join(", ")),
+				"local" => format!("(local arr = {}; arr)", a(1)),
+				_ => panic!("unknown builder {op}"),
+			}
+		}
+		Value::Array(a) => format!("[{}]", a.iter().map(j).collect::<Vec<_>>().join(", ")),
+		_ => v.to_string(),
+	}
+}
+
+fn b(v: Value) -> Value {
+	json!({ "$b": v })
+}
+
+/// element-wise dump of an array result: a failing element is recorded, not propagated
+fn val_json_lazy(v: &Val) -> Result<Value, String> {
+	match v {
+		Val::Arr(a) => {
+			let mut out = Vec::with_capacity(a.len());
+			for i in 0..a.len() {
+				match a.get(i) {
+					Ok(Some(e)) => out.push(val_json(&e).unwrap_or_else(|_| json!({"$err": 1}))),
+					Ok(None) => return Err("index out of range".into()),
+					Err(_) => out.push(json!({"$err": 1})),
+				}
+			}
+			Ok(Value::Array(out))
+		}
+		_ => val_json(v),
+	}
 }
 
 /// source text of the call described by `op`
@@ -140,11 +191,16 @@ fn source(op: &Value) -> String {
 
 fn run_case(s: &State, op: &Value) -> Value {
 	let code = source(op);
+	let lazy = op["op"].as_str() == Some("std.lazy");
 	match guarded(|| -> Result<Value, String> {
 		let v = s
 			.evaluate_snippet("<c10>".to_owned(), code.clone())
 			.map_err(|e| format!("{}", e.error()))?;
-		val_json(&v)
+		if lazy {
+			val_json_lazy(&v)
+		} else {
+			val_json(&v)
+		}
 	}) {
 		Ok(Ok(v)) => json!({ "ok": v }),
 		Ok(Err(msg)) => json!({ "err": 1, "_msg": msg, "_src": code }),
@@ -254,9 +310,16 @@ struct Gen<'a> {
 	hist: BTreeMap<String, usize>,
 	outcome: BTreeMap<&'static str, usize>,
 	len_hist: BTreeMap<usize, usize>,
+	kind: BTreeMap<&'static str, usize>,
 }
 impl Gen<'_> {
 	fn emit(&mut self, fname: &str, a: Vec<Value>, f: Option<&str>, g: Option<&str>) {
+		self.emit_op("std.call", fname, a, f, g)
+	}
+	fn emit_lazy(&mut self, fname: &str, a: Vec<Value>, f: Option<&str>, g: Option<&str>) {
+		self.emit_op("std.lazy", fname, a, f, g)
+	}
+	fn emit_op(&mut self, opname: &str, fname: &str, a: Vec<Value>, f: Option<&str>, g: Option<&str>) {
 		let size: usize = 1 + a
 			.iter()
 			.map(|v| v.as_array().map_or(1, |x| x.len() + 1))
@@ -264,7 +327,14 @@ impl Gen<'_> {
 		if let Some(first) = a.iter().find_map(Value::as_array) {
 			*self.len_hist.entry(first.len()).or_default() += 1;
 		}
-		let mut op = json!({"op":"std.call","fn":fname,"a":a,"size":size});
+		let built = a.iter().filter(|v| v.get("$b").is_some()).count();
+		if built > 0 {
+			*self.kind.entry("builtin-made argument").or_default() += 1;
+		}
+		if opname == "std.lazy" {
+			*self.kind.entry("lazy elements").or_default() += 1;
+		}
+		let mut op = json!({"op":opname,"fn":fname,"a":a,"size":size});
 		if let Some(f) = f {
 			op["f"] = json!(f);
 		}
@@ -324,6 +394,7 @@ pub fn run(opts: &Opts) {
 		hist: BTreeMap::new(),
 		outcome: BTreeMap::new(),
 		len_hist: BTreeMap::new(),
+		kind: BTreeMap::new(),
 	};
 
 	let nums = [json!(0), json!(1), json!(2), json!(-1)];
@@ -675,13 +746,225 @@ pub fn run(opts: &Opts) {
 	}
 	g.emit("makeArray", vec![json!("a")], Some("id"), None);
 
+	// ---- round 3: arguments PRODUCED BY OTHER BUILTINS (every ArrayLike representation: range,
+	// stepped slice over cheap / lazy / eager inners, reverse, repeat, sort result, mapped, filtered,
+	// makeArray, extended, bytes, chars) fed to every function -------------------------------------
+	{
+		let r = |a: i64, z: i64| b(json!(["range", a, z]));
+		let sl = |x: Value, i: Value, e: Value, st: Value| b(json!(["slice", x, i, e, st]));
+		let n = Value::Null;
+		let num_arrays: Vec<Value> = vec![
+			r(0, 7),
+			r(-2, 3),
+			r(3, 3),
+			r(2, 1),
+			sl(r(0, 7), json!(1), json!(8), json!(3)),
+			sl(r(0, 9), json!(0), n.clone(), json!(2)),
+			sl(r(0, 9), json!(2), json!(9), json!(4)),
+			sl(r(0, 5), n.clone(), n.clone(), json!(2)),
+			sl(r(0, 7), json!(-5), json!(-1), json!(2)),
+			sl(json!([5, 3, 1, 4, 2, 0, 6]), json!(1), n.clone(), json!(2)),
+			sl(sl(r(0, 15), json!(1), n.clone(), json!(2)), json!(1), n.clone(), json!(3)),
+			b(json!(["reverse", r(0, 4)])),
+			b(json!(["reverse", sl(r(0, 7), json!(1), json!(8), json!(3))])),
+			sl(b(json!(["reverse", r(0, 8)])), json!(1), json!(8), json!(3)),
+			b(json!(["repeat", r(1, 2), 3])),
+			b(json!(["repeat", sl(r(0, 5), json!(0), json!(6), json!(2)), 2])),
+			sl(b(json!(["repeat", [1, 2, 3], 3])), json!(1), json!(9), json!(2)),
+			b(json!(["sort", [3, 1, 2, 1]])),
+			sl(b(json!(["sort", [5, 3, 1, 4, 2, 0]])), json!(1), json!(6), json!(2)),
+			b(json!(["map", "inc", r(0, 3)])),
+			sl(b(json!(["map", "twice", r(0, 6)])), json!(1), json!(7), json!(2)),
+			b(json!(["mapWithIndex", "add", [1, 1, 1]])),
+			b(json!(["filter", "pos", r(-2, 3)])),
+			sl(b(json!(["filter", "pos", r(-2, 6)])), json!(0), n.clone(), json!(2)),
+			b(json!(["makeArray", 4, "twice"])),
+			sl(b(json!(["makeArray", 7, "id"])), json!(1), json!(7), json!(3)),
+			b(json!(["concat", r(0, 2), sl(r(0, 7), json!(1), json!(8), json!(3))])),
+			b(json!(["bytes", "abc"])),
+			sl(b(json!(["bytes", "abcdefg"])), json!(1), json!(7), json!(3)),
+			b(json!(["reverse", b(json!(["bytes", "ab"]))])),
+			b(json!(["local", [1, 2, 3]])),
+			sl(b(json!(["local", [0, 1, 2, 3, 4, 5, 6, 7]])), json!(1), json!(8), json!(3)),
+		];
+		let str_arrays: Vec<Value> = vec![
+			b(json!(["chars", "abcdef"])),
+			sl(b(json!(["chars", "abcdefg"])), json!(1), json!(7), json!(3)),
+			b(json!(["reverse", b(json!(["chars", "abc"]))])),
+			b(json!(["repeat", ["a", "b"], 2])),
+			sl(json!(["a", "b", "c", "d", "e"]), json!(0), json!(5), json!(2)),
+			sl(json!(["a", null, "b", null, "c"]), json!(0), json!(5), json!(2)),
+			sl(json!(["a", null, "b", "c", null]), json!(1), json!(5), json!(3)),
+			b(json!(["map", "cc", ["a", "b"]])),
+			b(json!(["sort", ["b", "a", "c"]])),
+			sl(b(json!(["sort", ["d", "b", "a", "c"]])), json!(0), json!(4), json!(2)),
+			sl(b(json!(["repeat", ["x", "y", "z"], 2])), json!(1), json!(6), json!(2)),
+		];
+		let arr_arrays: Vec<Value> = vec![
+			b(json!(["list", sl(r(0, 7), json!(1), json!(8), json!(3)), b(json!(["reverse", r(0, 2)])), r(2, 1)])),
+			b(json!(["list", r(2, 1), r(2, 1), sl(r(0, 7), json!(1), json!(8), json!(3)), r(0, 1)])),
+			sl(json!([[1], [2], [3], [4], [5]]), json!(0), json!(5), json!(2)),
+			sl(json!([[1], null, [2], [3], null]), json!(1), json!(5), json!(3)),
+			sl(json!([[], [], [1], [2], []]), json!(0), json!(5), json!(2)),
+			b(json!(["map", "wrap", r(0, 3)])),
+			b(json!(["map", "dup", sl(r(0, 5), json!(0), json!(6), json!(2))])),
+			b(json!(["repeat", [[1], [2, 3]], 2])),
+			b(json!(["reverse", [[1], [], [2, 3]]])),
+			sl(b(json!(["repeat", [[], [1], [2, 3]], 3])), json!(0), json!(9), json!(2)),
+		];
+		for x in &num_arrays {
+			for (fname, kf) in [("sort", None), ("sort", Some("neg")), ("uniq", None), ("set", None), ("set", Some("mod2")), ("minArray", None), ("maxArray", Some("neg"))] {
+				g.emit(fname, vec![x.clone()], kf, None);
+			}
+			for y in [json!([1, 4]), sl(r(0, 9), json!(1), json!(9), json!(3))] {
+				for fname in ["setUnion", "setInter", "setDiff"] {
+					g.emit(fname, vec![x.clone(), y.clone()], None, None);
+					g.emit(fname, vec![y.clone(), x.clone()], None, None);
+				}
+			}
+			for p in [json!(4), json!(1), json!(98)] {
+				g.emit("setMember", vec![p.clone(), x.clone()], None, None);
+				g.emit("member", vec![x.clone(), p.clone()], None, None);
+				g.emit("contains", vec![x.clone(), p.clone()], None, None);
+				g.emit("count", vec![x.clone(), p.clone()], None, None);
+				g.emit("find", vec![p.clone(), x.clone()], None, None);
+				g.emit("remove", vec![x.clone(), p.clone()], None, None);
+			}
+			for i in -1..=9i64 {
+				g.emit("removeAt", vec![x.clone(), json!(i)], None, None);
+			}
+			g.emit("flattenDeepArray", vec![x.clone()], None, None);
+			g.emit("flattenArrays", vec![b(json!(["list", x, x]))], None, None);
+			g.emit("flattenArrays", vec![b(json!(["list", x, [], x, [9]]))], None, None);
+			g.emit("join", vec![json!([0]), b(json!(["list", x, null, x]))], None, None);
+			g.emit("join", vec![x.clone(), b(json!(["list", [7], x, [8]]))], None, None);
+			g.emit("foldl", vec![x.clone(), json!(0)], Some("add"), None);
+			g.emit("foldl", vec![x.clone(), json!([])], Some("snoc"), None);
+			g.emit("foldr", vec![x.clone(), json!([])], Some("cons"), None);
+			g.emit("foldr", vec![x.clone(), json!(0)], Some("pair"), None);
+			for f in ["inc", "wrap", "neg"] {
+				g.emit("map", vec![x.clone()], Some(f), None);
+			}
+			for f in ["pair", "add"] {
+				g.emit("mapWithIndex", vec![x.clone()], Some(f), None);
+			}
+			for f in ["pos", "eq1", "true"] {
+				g.emit("filter", vec![x.clone()], Some(f), None);
+			}
+			g.emit("filterMap", vec![x.clone()], Some("pos"), Some("twice"));
+			for f in ["dup", "numOrNull"] {
+				g.emit("flatMap", vec![x.clone()], Some(f), None);
+			}
+			for fname in ["any", "all", "sum", "avg", "lines", "deepJoin"] {
+				g.emit(fname, vec![x.clone()], None, None);
+			}
+			g.emit("repeat", vec![x.clone(), json!(2)], None, None);
+			for (i, e, st) in [(json!(1), n.clone(), json!(2)), (json!(-3), n.clone(), json!(1)), (json!(0), json!(-1), json!(3)), (n.clone(), json!(2), n.clone())] {
+				g.emit("slice", vec![x.clone(), i, e, st], None, None);
+			}
+		}
+		for x in &str_arrays {
+			for sep in [json!(","), json!(""), json!("--")] {
+				g.emit("join", vec![sep, x.clone()], None, None);
+			}
+			for fname in ["lines", "deepJoin", "flattenDeepArray", "sort", "uniq", "set", "minArray", "maxArray"] {
+				g.emit(fname, vec![x.clone()], None, None);
+			}
+			for p in [json!("b"), json!("zz")] {
+				g.emit("member", vec![x.clone(), p.clone()], None, None);
+				g.emit("count", vec![x.clone(), p.clone()], None, None);
+				g.emit("find", vec![p.clone(), x.clone()], None, None);
+				g.emit("remove", vec![x.clone(), p.clone()], None, None);
+			}
+			for i in 0..=4i64 {
+				g.emit("removeAt", vec![x.clone(), json!(i)], None, None);
+			}
+			g.emit("foldl", vec![x.clone(), json!("")], Some("add"), None);
+			g.emit("foldr", vec![x.clone(), json!("")], Some("add"), None);
+			g.emit("map", vec![x.clone()], Some("cc"), None);
+			g.emit("flatMap", vec![x.clone()], Some("wrap"), None);
+			g.emit("filter", vec![x.clone()], Some("true"), None);
+			g.emit("slice", vec![x.clone(), json!(1), n.clone(), json!(2)], None, None);
+			g.emit("repeat", vec![x.clone(), json!(2)], None, None);
+		}
+		for x in &arr_arrays {
+			g.emit("flattenArrays", vec![x.clone()], None, None);
+			g.emit("flattenDeepArray", vec![x.clone()], None, None);
+			for sep in [json!([]), json!([0]), json!([8, 9]), r(5, 6)] {
+				g.emit("join", vec![sep, x.clone()], None, None);
+			}
+			g.emit("foldl", vec![x.clone(), json!([])], Some("add"), None);
+			g.emit("flatMap", vec![x.clone()], Some("id"), None);
+			g.emit("map", vec![x.clone()], Some("len"), None);
+			g.emit("sort", vec![x.clone()], None, None);
+			g.emit("deepJoin", vec![x.clone()], None, None);
+			for i in 0..=3i64 {
+				g.emit("removeAt", vec![x.clone(), json!(i)], None, None);
+			}
+		}
+	}
+
+	// ---- round 3: lazily failing elements — which elements does each loop force? -------------------
+	{
+		let err = json!({"$err": 1});
+		let bool_pool = [json!(false), json!(true), err.clone(), json!(1)];
+		for arr in all_arrays(&bool_pool, if thorough { 5 } else { 4 }) {
+			g.emit_lazy("any", vec![arr.clone()], None, None);
+			g.emit_lazy("all", vec![arr], None, None);
+		}
+		let num_pool = [json!(1), json!(2), err.clone(), json!("a")];
+		for arr in all_arrays(&num_pool, if thorough { 4 } else { 3 }) {
+			for p in [json!(1), json!(2), json!("zz")] {
+				g.emit_lazy("member", vec![arr.clone(), p.clone()], None, None);
+				g.emit_lazy("contains", vec![arr.clone(), p.clone()], None, None);
+				g.emit_lazy("find", vec![p.clone(), arr.clone()], None, None);
+				g.emit_lazy("count", vec![arr.clone(), p.clone()], None, None);
+			}
+			for f in ["add", "fst", "snoc"] {
+				g.emit_lazy("foldl", vec![arr.clone(), json!(0)], Some(f), None);
+				g.emit_lazy("foldl", vec![arr.clone(), json!([])], Some(f), None);
+			}
+			for f in ["add", "cons", "pair"] {
+				g.emit_lazy("foldr", vec![arr.clone(), json!(0)], Some(f), None);
+				g.emit_lazy("foldr", vec![arr.clone(), json!([])], Some(f), None);
+			}
+			for f in ["true", "pos", "isNum", "eq1", "const0", "failOnStr"] {
+				g.emit_lazy("filter", vec![arr.clone()], Some(f), None);
+			}
+			for (f, m) in [("true", "const0"), ("true", "inc"), ("isNum", "twice"), ("pos", "wrap"), ("true", "lit")] {
+				g.emit_lazy("filterMap", vec![arr.clone()], Some(f), Some(m));
+			}
+			for f in ["inc", "const0", "wrap", "type", "lit"] {
+				g.emit_lazy("map", vec![arr.clone()], Some(f), None);
+			}
+			for f in ["fst", "pair", "add"] {
+				g.emit_lazy("mapWithIndex", vec![arr.clone()], Some(f), None);
+			}
+			for f in ["dup", "numOrNull", "wrap"] {
+				g.emit_lazy("flatMap", vec![arr.clone()], Some(f), None);
+			}
+			g.emit_lazy("sum", vec![arr.clone()], None, None);
+			g.emit_lazy("avg", vec![arr.clone()], None, None);
+			g.emit_lazy("avg", vec![arr.clone(), err.clone()], None, None);
+			g.emit_lazy("avg", vec![arr.clone(), json!("dflt")], None, None);
+			for fname in ["minArray", "maxArray"] {
+				for kf in [None, Some("neg"), Some("const0")] {
+					g.emit_lazy(fname, vec![arr.clone()], kf, None);
+					g.emit_lazy(fname, vec![arr.clone(), err.clone()], kf, None);
+				}
+				g.emit_lazy(fname, vec![arr.clone(), json!("dflt")], None, None);
+			}
+		}
+	}
+
 	let meta = json!({
 		"engine": "c10",
 		"cases": g.w.n,
 		"per_function": g.hist,
 		"outcomes": g.outcome,
 		"first_array_arg_length_hist": g.len_hist,
-		"rule": "std.<fn>(args) evaluated from source by the real evaluator for 40 functions: exhaustive arrays over {0,1,2,-1} (len<=4 quick, all key functions; len 5 for 4 keys), over {'a','b',''} (len<=3), over number arrays, over objects, plus seeded mixed-type arrays with duplicates/nesting (len<=6 quick/8 thorough); set operations on all pairs of subsets of 5 numbers / 4 strings / 4 arrays / 3 objects under matching key functions plus arbitrary (non-set) pairs; removeAt at every index -3..len+3 and the i32 extremes; slice over all index pairs -3..len+3 x steps; key/predicate/fold functions from a named pool of 26 (identity, total, partial, type-changing, non-injective)"
+		"argument_kinds": g.kind,
+		"rule": "std.<fn>(args) evaluated from source by the real evaluator for 40 functions: exhaustive arrays over {0,1,2,-1} (len<=4 quick, all key functions; len 5 for 4 keys), over {'a','b',''} (len<=3), over number arrays, over objects, plus seeded mixed-type arrays with duplicates/nesting (len<=6 quick/8 thorough); set operations on all pairs of subsets of 5 numbers / 4 strings / 4 arrays / 3 objects under matching key functions plus arbitrary (non-set) pairs; removeAt at every index -3..len+3 and the i32 extremes; slice over all index pairs -3..len+3 x steps; key/predicate/fold functions from a named pool of 26 (identity, total, partial, type-changing, non-injective); round 3: 53 arrays produced by other builtins (range, stepped slices of range/literal/sorted/mapped/filtered/repeated/reversed/bytes/chars arrays, nested slices, extended) fed to every function, and arrays with failing elements (error 'x') with an element-wise dump to observe which elements each loop forces"
 	});
 	let Gen { w, .. } = g;
 	w.finish(meta, &opts.out);
